@@ -93,6 +93,11 @@ func (g *vGen) expr() string {
 	default:
 		e = "needs." + g.pick(g.jobIDs) + ".outputs." + g.pick(g.outs) + " || matrix." + g.pick(g.matrixKs)
 	}
+	if g.rng.Intn(9) == 0 {
+		// reads of untrusted inputs (reported in script positions only)
+		e = g.pick([]string{"github.event.issue.title", "github.head_ref", "github.event.pull_request.head.ref", "GITHUB.event.comment.Body", "github['event']['issue']['body']",
+			"github.event.commits.*.message", "contains(github.event.issue.title, 'x')", "format('{0}', github.event.review.body)", "github.event.issue.number", "github.event.pages.*.page_name"})
+	}
 	return e
 }
 
@@ -134,11 +139,11 @@ func genVisitWorkflow(rng *rand.Rand) *vWorkflow {
 	}
 	g.jobIDs = append(g.jobIDs, "ghost")
 	hasCall, hasDispatch := rng.Intn(3) == 0, rng.Intn(3) == 0
-	dispatch, callIn, callSec := "N", "N", "N"
-	var callOutProbes []string
+	var callOutProbes, events, top []string
 	b.add("on:")
 	if !hasCall && !hasDispatch {
 		b.add("  push:")
+		events = append(events, "o")
 	}
 	type jobPlan struct {
 		id      string
@@ -153,25 +158,37 @@ func genVisitWorkflow(rng *rand.Rand) *vWorkflow {
 			}
 		}
 	}
-	if hasCall {
+	inputRef := func() string { return "inputs." + randCase(rng, g.pick(g.inputs)) }
+	emitCall := func() {
 		b.add("  workflow_call:")
+		ins := "()"
 		if rng.Intn(4) != 0 {
 			b.add("    inputs:")
 			var items []string
-			for _, n := range []string{"who", "lvl"} {
+			for _, n := range []string{"who", "lvl", "flag"} {
 				if rng.Intn(2) == 0 {
 					ty := g.pick([]string{"string", "boolean", "number"})
 					b.add("      " + randCase(rng, n) + ":")
 					b.add("        type: " + ty)
-					items = append(items, fmt.Sprintf("(%s,%s)", hx(n), map[string]string{"string": "string", "boolean": "bool", "number": "number"}[ty]))
+					d := "N"
+					if rng.Intn(2) == 0 {
+						// a default may refer to the inputs declared before it (and only to those)
+						e := inputRef()
+						if rng.Intn(4) == 0 {
+							e = g.expr()
+						}
+						d = b.probe("        default: ", e, "on.workflow_call.inputs.<inputs_id>.default").sexp()
+					}
+					items = append(items, fmt.Sprintf("(%s,%s,%s)", hx(n), map[string]string{"string": "string", "boolean": "bool", "number": "number"}[ty], d))
 				}
 			}
 			if len(items) == 0 {
 				b.lines = b.lines[:len(b.lines)-1]
 				b.add("    inputs: {}")
 			}
-			callIn = sexpList(items)
+			ins = sexpList(items)
 		}
+		secs := "N"
 		if rng.Intn(2) == 0 {
 			var items []string
 			b.add("    secrets:")
@@ -186,7 +203,7 @@ func genVisitWorkflow(rng *rand.Rand) *vWorkflow {
 				b.lines = b.lines[:len(b.lines)-1]
 				b.add("    secrets: {}")
 			}
-			callSec = sexpList(items)
+			secs = sexpList(items)
 		}
 		b.add("    outputs:")
 		for k := 0; k < 3; k++ {
@@ -198,12 +215,13 @@ func genVisitWorkflow(rng *rand.Rand) *vWorkflow {
 			p := b.probe("        value: ", e, "on.workflow_call.outputs.<output_id>.value")
 			callOutProbes = append(callOutProbes, p.sexp())
 		}
+		events = append(events, fmt.Sprintf("(c,%s,%s)", ins, secs))
 	}
-	if hasDispatch {
+	emitDispatch := func() {
 		b.add("  workflow_dispatch:")
 		b.add("    inputs:")
 		var items []string
-		for _, n := range []string{"who", "flag"} {
+		for _, n := range []string{"who", "flag", "lvl"} {
 			if rng.Intn(3) != 0 {
 				ty := g.pick([]string{"string", "boolean", "number", "choice", "environment"})
 				b.add("      " + randCase(rng, n) + ":")
@@ -211,14 +229,46 @@ func genVisitWorkflow(rng *rand.Rand) *vWorkflow {
 				if ty == "choice" {
 					b.add("        options: [a, b]")
 				}
-				items = append(items, fmt.Sprintf("(%s,%s)", hx(n), map[string]string{"string": "string", "boolean": "bool", "number": "number", "choice": "string", "environment": "string"}[ty]))
+				// the strings of a declaration are checked without a workflow key, and while `inputs` is not yet updated
+				var ps []string
+				if rng.Intn(2) == 0 {
+					ps = append(ps, b.probe("        description: ", inputRef(), "").sexp())
+				}
+				if rng.Intn(3) == 0 && ty == "string" {
+					ps = append(ps, b.probe("        default: ", g.expr(), "").sexp())
+				}
+				items = append(items, fmt.Sprintf("(%s,%s,%s)", hx(n), map[string]string{"string": "string", "boolean": "bool", "number": "number", "choice": "string", "environment": "string"}[ty], sexpList(ps)))
 			}
 		}
 		if len(items) == 0 {
 			b.lines = b.lines[:len(b.lines)-1]
 			b.add("    inputs: {}")
 		}
-		dispatch = sexpList(items)
+		events = append(events, fmt.Sprintf("(d,%s)", sexpList(items)))
+	}
+	switch {
+	case hasCall && hasDispatch && rng.Intn(2) == 0:
+		emitDispatch()
+		emitCall()
+	case hasCall && hasDispatch:
+		emitCall()
+		emitDispatch()
+	case hasCall:
+		emitCall()
+	case hasDispatch:
+		emitDispatch()
+	}
+	// workflow-level strings, checked after `on:` with the final header
+	if rng.Intn(3) == 0 {
+		top = append(top, b.probe("run-name: ", g.expr(), "run-name").sexp())
+	}
+	if rng.Intn(3) == 0 {
+		b.add("env:")
+		top = append(top, b.probe("  TOPV: ", g.expr(), "env").sexp())
+	}
+	if rng.Intn(3) == 0 {
+		b.add("concurrency:")
+		top = append(top, b.probe("  group: ", g.expr(), "concurrency").sexp())
 	}
 	headerEnd := b.add("jobs:")
 	var jobSexps []string
@@ -431,9 +481,13 @@ func genVisitWorkflow(rng *rand.Rand) *vWorkflow {
 				if rng.Intn(2) == 0 {
 					b.add(cont + "with:")
 					ps = append(ps, b.probe(cont+"  "+map[string]string{"actions/checkout@v4": "ref", "actions/github-script@v7": "result-encoding", "actions/cache@v4": "key", "actions/upload-artifact@v4": "name"}[spec]+": ", g.expr(), "jobs.<job_id>.steps.with").sexp())
+					if spec == "actions/github-script@v7" {
+						// the `script` input (in any letter case) is an inline script
+						ps = append(ps, b.probeK(cont+"  "+randCase(rng, "script")+": return ", g.expr(), "jobs.<job_id>.steps.with", "x").sexp())
+					}
 				}
 			} else {
-				ps = append(ps, b.probe(first+"run: echo ", g.expr(), "jobs.<job_id>.steps.run").sexp())
+				ps = append(ps, b.probeK(first+"run: echo ", g.expr(), "jobs.<job_id>.steps.run", "x").sexp())
 				if rng.Intn(3) == 0 {
 					ps = append(ps, b.probe(cont+"working-directory: ", g.expr(), "jobs.<job_id>.steps.working-directory").sexp())
 				}
@@ -467,11 +521,11 @@ func genVisitWorkflow(rng *rand.Rand) *vWorkflow {
 	}
 	jobEnd = append(jobEnd, len(b.lines))
 	return &vWorkflow{yaml: strings.Join(b.lines, "\n") + "\n",
-		sexp:   fmt.Sprintf("((%s,%s,%s),%s,%s)", dispatch, callIn, callSec, sexpList(jobSexps), sexpList(callOutProbes)),
+		sexp:   fmt.Sprintf("(%s,%s,%s,%s)", sexpList(events), sexpList(top), sexpList(jobSexps), sexpList(callOutProbes)),
 		probes: b.probes, lines: append([]string{}, b.lines...), jobStart: jobStart, jobEnd: jobEnd, jobNeeds: jobNeeds, headerEnd: headerEnd}
 }
 
-// visitCanon: `line=code|code;…` over the probes, codes sorted; untrusted-input reports are left out (the C11 tie covers them).
+// visitCanon: `line=code|code;…` over the probes, codes sorted (untrusted-input reports of script positions included).
 func visitCanon(w *vWorkflow, errs []*actionlint.Error) (string, bool) {
 	byLine := map[int][]string{}
 	ok := true
@@ -484,6 +538,11 @@ func visitCanon(w *vWorkflow, errs []*actionlint.Error) (string, bool) {
 		}
 		code, untrusted := classifySema(e.Message)
 		if untrusted != nil {
+			hs := make([]string, len(untrusted))
+			for i, p := range untrusted {
+				hs[i] = hx(p)
+			}
+			byLine[e.Line] = append(byLine[e.Line], "untrusted("+strings.Join(hs, ",")+")")
 			continue
 		}
 		if strings.HasPrefix(code, "unclassified:") {
@@ -586,9 +645,9 @@ func visitTie(c *ctx, r *Report, n int, independence bool, judge func(cs Case) (
 		}
 		r.nontrivial(w.sexp)
 		r.hist("tie:visit")
-		b.add("visit "+w.sexp, canon, cs)
+		b.add("visitsrc "+w.sexp, canon, cs)
 	}
-	r.Rule += fmt.Sprintf("; workflow-level model tie: %d generated workflows (1–4 jobs with needs incl. unknown / re-cased / self references, declared outputs, 12 matrix shapes incl. expression rows / include / matrix and nested values, workflow_call / workflow_dispatch inputs and secrets, steps with ids incl. placeholder ids and bundled actions, jobs that call a reusable workflow (with matrix / with / secrets), %d probes at job name / env / if / concurrency / container image, credentials, options, env / outputs / environment url / step run, with, name, if, env, working-directory / workflow_call output values) through the real linter and the Lean model AL.Visit: the [expression] diagnostics on every probe line compared (codes with arguments)", n, nProbes)
+	r.Rule += fmt.Sprintf("; workflow-level model tie: %d generated workflows (1–4 jobs with needs incl. unknown / re-cased / self references, declared outputs, 12 matrix shapes incl. expression rows / include / matrix and nested values, workflow_call / workflow_dispatch events in either order with inputs (defaults / descriptions that refer to other inputs) and secrets, run-name / env / concurrency at the top, steps with ids incl. placeholder ids and bundled actions, jobs that call a reusable workflow (with matrix / with / secrets), %d probes at job name / env / if / concurrency / container image, credentials, options, env / outputs / environment url / step run and github-script `script` (script positions: untrusted inputs reported), with, name, if, env, working-directory / workflow_call output values) through the real linter and the Lean model AL.Visit: the [expression] diagnostics on every probe line compared (codes with arguments)", n, nProbes)
 	_, err := b.flush(c, r)
 	return err
 }
